@@ -789,3 +789,82 @@ pub fn tokens_wire(src: &str, delimiters: Delimiters) -> Vec<String> {
         })
         .collect()
 }
+
+/// (C17) Names of every registered filter, test and function, each list sorted
+pub fn registered_builtins(tera: &Tera) -> (Vec<String>, Vec<String>, Vec<String>) {
+    let mut f: Vec<String> = tera.filters.keys().map(|k| k.to_string()).collect();
+    let mut t: Vec<String> = tera.tests.keys().map(|k| k.to_string()).collect();
+    let mut g: Vec<String> = tera.functions.keys().map(|k| k.to_string()).collect();
+    f.sort();
+    t.sort();
+    g.sort();
+    (f, t, g)
+}
+
+/// (C17) Calls a registered filter / test / function exactly as the VM does (`StoredFilter::call`
+/// etc. with `Kwargs::new`), outside a template, so that the error kind is observable.
+/// `which` is "filter", "test" or "function"; `None` when nothing of that name is registered.
+pub fn call_builtin(
+    tera: &Tera,
+    which: &str,
+    name: &str,
+    receiver: &Value,
+    kwargs: crate::value::Map,
+) -> Option<crate::TeraResult<Value>> {
+    let ctx = crate::Context::new();
+    let mut state = crate::vm::state::State::new(&ctx);
+    state.filters = Some(&tera.filters);
+    let kwargs = crate::args::Kwargs::new(std::sync::Arc::new(kwargs));
+    match which {
+        "filter" => tera.filters.get(name).map(|f| f.call(receiver, kwargs, &state)),
+        "test" => tera
+            .tests
+            .get(name)
+            .map(|f| f.call(receiver, kwargs, &state).map(Value::from)),
+        "function" => tera.functions.get(name).map(|f| f.call(kwargs, &state)),
+        _ => None,
+    }
+}
+
+/// C19: `T::deserialize` through the crate-private `ValueDeserializer` entry point (the third
+/// entry point next to `Value` and `&Value`).
+pub fn deserialize_via_value_deserializer<T: serde::de::DeserializeOwned>(
+    value: Value,
+) -> Result<T, String> {
+    T::deserialize(crate::value::verif_value_deserializer(value)).map_err(|e| e.to_string())
+}
+
+// ---------------------------------------------------------------------------------------------
+// C09: (pre, post) wire listings of every `Chunk::optimize` call made on this thread while
+// recording is on — both listings come from the same compilation (the compiler's kwargs order is
+// a HashMap iteration order and differs from one compilation of a source to the next)
+thread_local! {
+    static OPT_RECORD: std::cell::RefCell<Option<Vec<(Vec<String>, Vec<String>)>>> =
+        const { std::cell::RefCell::new(None) };
+}
+
+/// Start recording the (pre, post) listings of every optimisation pass run on this thread
+pub fn optimize_record_start() {
+    OPT_RECORD.with(|r| *r.borrow_mut() = Some(Vec::new()));
+}
+
+/// Stop recording and return what was recorded, in call order
+pub fn optimize_record_take() -> Vec<(Vec<String>, Vec<String>)> {
+    OPT_RECORD.with(|r| r.borrow_mut().take()).unwrap_or_default()
+}
+
+pub(crate) fn optimize_recording() -> bool {
+    OPT_RECORD.with(|r| r.borrow().is_some())
+}
+
+pub(crate) fn optimize_record(pre: Vec<String>, post: Vec<String>) {
+    OPT_RECORD.with(|r| {
+        if let Some(v) = r.borrow_mut().as_mut() {
+            v.push((pre, post));
+        }
+    });
+}
+
+pub(crate) fn chunk_wire(c: &Chunk) -> Vec<String> {
+    bc_chunk_wire(c)
+}
